@@ -1,17 +1,20 @@
 package checks
 
 import (
+	"encoding/base64"
 	"encoding/json"
 	"fmt"
 	"math"
 	"os"
 	"path/filepath"
+	"reflect"
 	"regexp"
 	"sort"
 	"strings"
 	"time"
 
 	"github.com/brutella/hc/characteristic"
+	"github.com/brutella/hc/service"
 
 	"verif/internal/catalog"
 	"verif/internal/fw"
@@ -492,6 +495,7 @@ func c15Run(c *fw.Ctx) {
 			rep("ctor-unencodable/accessory."+ct.Name, ct.Name+": "+err.Error())
 		}
 	}
+	c15Usable(c, rep)
 	c.Sample(map[string]interface{}{"constructor": "characteristic.NewOn", "type": chars["NewOn"]})
 	c.Extra("metadata_characteristics", int64(len(md.Characteristics)))
 	c.Extra("metadata_services", int64(len(md.Services)))
@@ -500,11 +504,166 @@ func c15Run(c *fw.Ctx) {
 	c.Extra("accessory_constructors", int64(len(catalog.AccessoryCtors)))
 }
 
+// c15Usable: "returns a usable object".
+//   - every characteristic takes and gives back valid values of its format: numbers at both bounds given as int and as
+//     float64 (what a JSON write delivers), locally and — when writable — from a connection; strings, tlv8 and data
+//     payloads of 0, 1, 48, 49, 64, 65 and 300 bytes come back unchanged;
+//   - the typed handles a service / accessory constructor returns next to the generic object ARE the objects in the
+//     generic lists: service.X.Field's characteristic is an element of X.Characteristics, accessory.Y.Field's service
+//     an element of Y.Services (an update through one is seen through the other).
+func c15Usable(c *fw.Ctx, rep func(sig, desc string)) {
+	try := func(f func()) (p interface{}) {
+		defer func() { p = recover() }()
+		f()
+		return nil
+	}
+	for _, ct := range catalog.CharacteristicCtors {
+		v, err := c15Build(ct)
+		if err != nil || catalog.Char(v) == nil {
+			continue
+		}
+		ch := catalog.Char(v)
+		var vals []interface{}
+		switch ch.Format {
+		case characteristic.FormatBool:
+			vals = []interface{}{true, false}
+		case characteristic.FormatString, characteristic.FormatTLV8, characteristic.FormatData:
+			for _, n := range []int{0, 1, 48, 49, 64, 65, 300} {
+				if ch.Format == characteristic.FormatString {
+					vals = append(vals, strings.Repeat("s", n))
+				} else {
+					vals = append(vals, base64.StdEncoding.EncodeToString(pat(n, 7)))
+				}
+			}
+		default:
+			mn, okn := num(ch.MinValue)
+			mx, okx := num(ch.MaxValue)
+			if !okn {
+				mn = 0
+			}
+			if !okx {
+				mx = mn + 100
+			}
+			for _, f := range []float64{mn, mx} {
+				if ch.Format == characteristic.FormatFloat {
+					vals = append(vals, f)
+				} else {
+					vals = append(vals, int(f), float64(int(f)))
+				}
+			}
+		}
+		for _, val := range vals {
+			for _, remote := range []bool{false, true} {
+				if remote && !c11Has(ch, characteristic.PermWrite) {
+					continue
+				}
+				c.Eval(1)
+				how := "UpdateValue"
+				if remote {
+					how = "UpdateValueFromConnection"
+				}
+				if p := try(func() {
+					if remote {
+						ch.UpdateValueFromConnection(val, nullConn{})
+					} else {
+						ch.UpdateValue(val)
+					}
+				}); p != nil {
+					rep("unusable/update-panics/characteristic."+ct.Name, fmt.Sprintf("%s: %s(%T %v) panics: %v", ct.Name, how, val, trunc([]byte(fmt.Sprint(val)), 20), p))
+					break
+				}
+				if !c11Has(ch, characteristic.PermRead) {
+					continue
+				}
+				got := ch.Value
+				gf, gok := num(got)
+				wf, wok := num(val)
+				same := reflect.DeepEqual(got, val) || (gok && wok && gf == wf)
+				if !same {
+					rep("unusable/value-not-kept/characteristic."+ct.Name, fmt.Sprintf("%s: after %s(%T of %d bytes / %v) the value is %v", ct.Name, how, val, len(fmt.Sprint(val)), trunc([]byte(fmt.Sprint(val)), 20), string(trunc([]byte(fmt.Sprint(got)), 40))))
+					break
+				}
+				if _, err := catalog.TypedGet(v); err != nil {
+					rep("unusable/getter-panics/characteristic."+ct.Name, fmt.Sprintf("%s: typed getter after %s(%T): %v", ct.Name, how, val, err))
+					break
+				}
+			}
+		}
+	}
+	// A typed field is "detached" when its object is not in the generic list although the list holds an object of the
+	// same type that no field refers to: the constructor put one object into the list and handed another one to the
+	// application. (A field whose object is simply not part of the list — accessory.Camera.StreamManagement2, left
+	// out on purpose upstream — is not judged.)
+	checkSvc := func(owner string, sv interface{}) {
+		s := catalog.Svc(sv)
+		if s == nil {
+			return
+		}
+		names, vals := catalog.Fields(sv)
+		claimed := map[*characteristic.Characteristic]bool{}
+		for _, fv := range vals {
+			if ch := catalog.Char(fv); ch != nil {
+				claimed[ch] = true
+			}
+		}
+		for i, fv := range vals {
+			ch := catalog.Char(fv)
+			if ch == nil {
+				continue
+			}
+			c.Eval(1)
+			in, orphan := false, false
+			for _, x := range s.Characteristics {
+				in = in || x == ch
+				orphan = orphan || (x != nil && x.Type == ch.Type && !claimed[x])
+			}
+			if !in && orphan {
+				rep("unusable/detached-field/"+owner+"."+names[i], fmt.Sprintf("%s: the characteristic behind field %s is not the one of that type in the service's list — an update through the field is never served, a controller's write never reaches its handlers", owner, names[i]))
+			}
+		}
+	}
+	for _, ct := range catalog.ServiceCtors {
+		if v, err := c15Build(ct); err == nil {
+			checkSvc("service."+ct.Name, v)
+		}
+	}
+	for _, ct := range catalog.AccessoryCtors {
+		v, err := c15Build(ct)
+		if err != nil || catalog.Acc(v) == nil {
+			continue
+		}
+		a := catalog.Acc(v)
+		names, vals := catalog.Fields(v)
+		claimed := map[*service.Service]bool{}
+		for _, fv := range vals {
+			if s := catalog.Svc(fv); s != nil {
+				claimed[s] = true
+			}
+		}
+		for i, fv := range vals {
+			s := catalog.Svc(fv)
+			if s == nil {
+				continue
+			}
+			c.Eval(1)
+			in, orphan := false, false
+			for _, x := range a.Services {
+				in = in || x == s
+				orphan = orphan || (x != nil && x != a.Info.Service && x.Type == s.Type && !claimed[x])
+			}
+			if !in && orphan {
+				rep("unusable/detached-field/accessory."+ct.Name+"."+names[i], fmt.Sprintf("%s: the service behind field %s is not the one of that type in the accessory's list", ct.Name, names[i]))
+			}
+			checkSvc("accessory."+ct.Name+"."+names[i], fv)
+		}
+	}
+}
+
 func init() {
 	fw.Register(&fw.Check{
 		ID:          "C15",
 		Level:       "exploration",
-		Rule:        "depth-1 exhaustive enumeration of the finite catalog: every exported New* constructor found by go/parser in /repo's characteristic, service and accessory packages at check time is called; every characteristic and service entry of gen/metadata.json is matched by type id and compared field by field (format, permissions, unit, min/max/step with case-insensitive keys, default value type and range, required characteristics, duplicate types, Type* constants); all services and accessories are then constructed again, kept alive together and re-inspected (a constructor must not disturb objects built before it). A second worker process repeats everything in a program where application code ran first: vendor characteristics whose bounds went through float32 next to every catalog bound, vendor type ids sharing their first group with each catalog type, and every constructor called from inside a change handler. distinct_nontrivial = distinct constructors that returned a usable object",
+		Rule:        "depth-1 exhaustive enumeration of the finite catalog: every exported New* constructor found by go/parser in /repo's characteristic, service and accessory packages at check time is called; every characteristic and service entry of gen/metadata.json is matched by type id and compared field by field (format, permissions, unit, min/max/step with case-insensitive keys, default value type and range, required characteristics, duplicate types, Type* constants); all services and accessories are then constructed again, kept alive together and re-inspected (a constructor must not disturb objects built before it). A second worker process repeats everything in a program where application code ran first: vendor characteristics whose bounds went through float32 next to every catalog bound, vendor type ids sharing their first group with each catalog type, and every constructor called from inside a change handler. Usability: every characteristic takes and gives back both bounds of its range given as int and as float64 (locally and, when writable, from a connection) and strings / tlv8 / data payloads of 0, 1, 48, 49, 64, 65, 300 bytes; a typed field of a service / accessory constructor's result refers to the object of its type in the generic list (not to a second object while the listed one is referred to by no field). distinct_nontrivial = distinct constructors that returned a usable object",
 		Shards:      func(string) int { return 2 },
 		Run:         c15Run,
 		Replay:      func(c *fw.Ctx, raw json.RawMessage) { c15Run(c) },
